@@ -1386,6 +1386,19 @@ def c18(rac, units, tier, seed):
             want = sorted(want_ph) if want_ph is not None else sorted(re.findall(r"\(([^()]*)\)", q))
             if all("ok" in x for x in a1.get("results", [])) and got != want:
                 rep.fail("every looked-up phrase is reported, as often as it is used", query=q, expected=str(want), actual=str(got))
+    # several results in one input, some of them failing: the descriptions of the successful results are all there, in order
+    for _ in range(30 if tier == "quick" else 400):
+        k = rnd.choice([2, 3, 3, 4])
+        parts = [("err", rnd.choice(["1 / 0", "1 m + 1 s", "nosuchfn(1)"])) if rnd.random() < 0.4 else ("ph", rnd.choice(good)) for _ in range(k)]
+        if not any(t == "err" for t, _ in parts):
+            parts[rnd.randrange(k)] = ("err", "1 / 0")
+        q = " ".join("(" + x + ")" for _, x in parts)
+        a1 = run(q, True)
+        rep.ran(("multi-err", q), True)
+        got = [d["phrase"] for d in a1.get("descriptions", [])]
+        want = [x for t, x in parts if t == "ph"]
+        if len(a1.get("results", [])) == len(parts) and got != want:
+            rep.fail("a failing result changes the descriptions reported for the other results of the same input", query=q, expected=str(want), actual=str(got))
     # order independence and isolation on ONE database.  Every process below opens the same on-disk index (built once, then read-only), so
     # "in isolation" and "after other queries" are asked of the same database; two in-memory instances may legitimately order equal-score
     # matches differently (multi-threaded index build), which is not what the property speaks about.
@@ -1504,6 +1517,12 @@ def c19(rac, units, tier, seed):
                             bad = "skip"
                             break
                         has_num = any(int(e[1]) > 0 for e in o["unit"])
+                        # pluralisation concerns the single numerator unit: what follows `/` reads the same in both renderings, and a
+                        # unit without exactly one numerator unit has one rendering only (DESIGN 6.0)
+                        up, us = o["unit_plural"], o["unit_singular"]
+                        nnum = sum(1 for e in o["unit"] if int(e[1]) > 0)
+                        if up.partition("/")[2] != us.partition("/")[2] or (nnum != 1 and up != us):
+                            rep.fail("a unit other than the single numerator unit is pluralised", query=q, expected=f"`{us}` in both renderings" if nnum != 1 else "the same text after `/`", actual=f"plural rendering `{up}`, singular `{us}`")
                         unit = o["unit_plural"] if F(n, d) != 1 else o["unit_singular"]
                         want = number + (" " if has_num else "") + unit
                         want_desc.append(want)
